@@ -279,6 +279,38 @@ void op_sign(const Case& c, TaskCtx& t, Outcome& o) {
         for (auto P : tr.challenge.P)
           t.stats->hit("c09.kkw_hidden_party_" + std::to_string(P));
     }
+    // the unopened parties' seeds are only hidden if the per-signature randomness is: a signer that keys the seed/salt
+    // derivation with public values instead of the secret key produces signatures that verify, yet every hidden seed can
+    // be recomputed by anyone. The salt is in the signature, so the hypothesis "derived from public data" is testable.
+    {
+      size_t salt_off = p.kkw ? (size_t)p.dig : (size_t)(2 * p.T + 7) / 8;
+      if (sig.size() >= salt_off + 32) {
+        bytes zeros(p.ios, 0), ones(p.ios, 0xff);
+        const bytes* hyp[] = {&k.C, &k.pt, &zeros, &ones};
+        const char* hname[] = {"the public ciphertext", "the public plaintext", "an all-zero string", "an all-one string"};
+        for (int h = 0; h < 4; h++) {
+          model::Shake sh(model::shake_bits(p));
+          sh.absorb(*hyp[h]);
+          sh.absorb(msg);
+          sh.absorb(k.C);
+          sh.absorb(k.pt);
+          sh.absorb_le16((unsigned)p.n);
+          bytes salt;
+          if (p.kkw)
+            salt = sh.squeeze(32);
+          else {
+            bytes all = sh.squeeze((size_t)p.T * 3 * p.seed + 32);
+            salt.assign(all.end() - 32, all.end());
+          }
+          if (*hyp[h] != k.sk && memcmp(sig.data() + salt_off, salt.data(), 32) == 0)
+            CHECK_FAIL("C09.per_signature_randomness_derived_from_public_data",
+                       std::string(p.name) + " surf" + std::to_string(surf) + ": the salt equals the derivation keyed with " + hname[h] +
+                           " instead of the secret key, so every unopened party's seed can be recomputed from public data");
+        }
+        if (t.stats)
+          t.stats->hit("c09.public_derivation_hypotheses_tested", 4);
+      }
+    }
     // revealing is complete: the verifier reconstructs every opened party (accepts)
     int v = cleancall([&] { return s_verify(0, k, msg.data(), msg.size(), sig.data(), sig.size()); });
     if (v != 0)
